@@ -17,7 +17,7 @@ func init() { vk.RegisterWorker("c15", workerC15) }
 
 func MainC15(prop, tier string) int {
 	r := vk.New("C15", tier)
-	r.Rule = "interactive sessions in a private tmux server (the terminal emulator) with ASCII pointer/marker/ellipsis and no scrollbar, over three layouts x info styles (default, inline, hidden) x header settings (none, --header, --header-lines, both, --header-first) x no border / --border x single / multi (fullscreen), windows of 30-110 columns x 8-30 rows with resizes, lists of short and over-long ASCII lines; histories of cursor moves, page moves, toggles, query edits, reloads and sort toggles. After quiescence a nonce handshake (change-prompt(<nonce>): once the nonce is on the screen every earlier byte has been interpreted) synchronises capture-pane with GET /, then the screen is parsed: prompt row shows prompt+query; info shows matched/total (and selected); list rows are a contiguous window of matches[] containing the cursor, in the layout's direction, each equal to the line or a truncated form with the ellipsis at the cut end(s) and never wider than the window; pointer on exactly the current row, marker on exactly the selected rows; header rows hold the header texts and are not list rows. distinct = (geometry options, action kinds, truncation seen) signatures"
+	r.Rule = "interactive sessions in a private tmux server (the terminal emulator) with ASCII pointer/marker/ellipsis and no scrollbar, over three layouts x info styles (default, inline, hidden) x header settings (none, --header, --header-lines, both, --header-first) x no border / --border x single / multi (fullscreen), windows of 30-110 columns x 8-30 rows with resizes, lists of short and over-long ASCII lines; histories of cursor moves, page moves, toggles, query edits, reloads, sort toggles, and layout shifts without a resize (toggle-header one to three times in a row - the comparison then expects no header rows while it is hidden - and change-header growing by a line and shrinking back). After quiescence a nonce handshake (change-prompt(<nonce>): once the nonce is on the screen every earlier byte has been interpreted) synchronises capture-pane with GET /, then the screen is parsed: prompt row shows prompt+query; info shows matched/total (and selected); list rows are a contiguous window of matches[] containing the cursor, in the layout's direction, each equal to the line or a truncated form with the ellipsis at the cut end(s) and never wider than the window; pointer on exactly the current row, marker on exactly the selected rows; header rows hold the header texts and are not list rows. distinct = (geometry options, action kinds, truncation seen) signatures"
 	r.Assumptions = []string{"ASCII items (exact comparison); capture-pane trims trailing blanks, so rows are compared right-trimmed", "ordering, not timing, decides when the screen is read (nonce handshake); a nonce that never appears is inconclusive"}
 	if _, err := fzfrun.Bin(); err != nil {
 		r.Inconclusive(err.Error())
@@ -144,6 +144,7 @@ func sessionC15(r *vk.Run, rng *rand.Rand, idx int) {
 	var hist []string
 	kinds := map[string]bool{}
 	sawTrunc := false
+	hdrHidden := false
 	rounds := 3 + rng.Intn(6)
 	for round := 0; round < rounds; round++ {
 		for k := 0; k < 1+rng.Intn(4); k++ {
@@ -192,6 +193,25 @@ func sessionC15(r *vk.Run, rng *rand.Rand, idx int) {
 					}
 					seqn = append(seqn, "toggle-all")
 					kinds["half-toggle-all"] = true
+				}
+			}
+			if len(seqn) == 0 && (len(g.header) > 0 || g.headerN > 0) && rng.Intn(7) == 0 {
+				// the rows of prompt, info and list move without a resize: the header is hidden / shown again
+				// (1-3 toggles in a row), or grows by a line and shrinks back; rows that change their role
+				// must be repainted
+				if len(g.header) > 0 && rng.Intn(2) == 0 {
+					orig := strings.Join(g.header, "\n")
+					seqn = []string{"change-header(" + orig + "\nHEADER-EXTRA)", "change-header(" + orig + ")"}
+					kinds["header-grow-shrink"] = true
+				} else {
+					n := 1 + rng.Intn(3)
+					for i := 0; i < n; i++ {
+						seqn = append(seqn, "toggle-header")
+					}
+					if n%2 == 1 {
+						hdrHidden = !hdrHidden
+					}
+					kinds["toggle-header"] = true
 				}
 			}
 			if len(seqn) == 0 {
@@ -274,7 +294,12 @@ func sessionC15(r *vk.Run, rng *rand.Rand, idx int) {
 		}
 		r.Eval(1)
 		r.Count("screens_compared", 1)
-		why, trunc, nrows := compareScreen(scr, st, g, nonce, headerLines, cols)
+		gNow, hlNow := g, headerLines
+		if hdrHidden {
+			gNow.header, gNow.headerN, hlNow = nil, 0, nil
+			r.Count("screens_with_hidden_header", 1)
+		}
+		why, trunc, nrows := compareScreen(scr, st, gNow, nonce, hlNow, cols)
 		r.Count("list_rows_compared", int64(nrows))
 		if trunc {
 			sawTrunc = true
